@@ -92,7 +92,19 @@ def boxes(draw, max_n: int, min_n: int = 2):
             k = draw(st.integers(1, 6))
             lo = [x * 2.0 ** -k for x in lo]
             wd = [x * 2.0 ** -k for x in wd]
-    mode = draw(st.sampled_from(["mixed", "mixed", "mixed", "all-zero", "one-wide"]))
+    mode = draw(st.sampled_from(["mixed", "mixed", "mixed", "all-zero", "one-wide", "huge-narrow", "tiny-widths"]))
+    if mode == "huge-narrow":
+        # large magnitudes with small non-zero widths: every interval is 'nearly' degenerate relative to its values
+        mag = draw(st.sampled_from([2.0 ** 20, 2.0 ** 24, 2.0 ** 30]))
+        lo = [float(draw(st.integers(-16, 16))) * mag for _ in range(size)]
+        wd = [float(draw(st.sampled_from([0, 1, 2, 4, 8]))) for _ in range(size)]
+        cls = "int"
+    elif mode == "tiny-widths":
+        lo = [0.0] * size if draw(st.booleans()) else [float(x) for x in lo]
+        tiny = draw(st.sampled_from([2.0 ** -30, 2.0 ** -40, 1e-9]))
+        wd = [tiny * draw(st.integers(0, 3)) for _ in range(size)]
+        if cls == "float" or any(abs(x) > 4096 for x in lo):
+            lo = [0.0] * size
     if mode == "all-zero":
         wd = [0] * size
     elif mode == "one-wide":
